@@ -320,6 +320,12 @@ pub async fn run_scenario(rep: &mut Report, sub_seed: u64, table: Arc<Vec<Vec<u8
     }
     let migs = sc.migrations().await;
     st.check_state("S1_precheck", &migs, &none, &mut rng).await;
+    // in some scenarios the same metadata arrives again under a newer epoch in one of the phases
+    let refresh_at = rng.below(5);
+    if refresh_at == 1 && sc.refresh().await.is_ok() {
+        st.rep.count("metadata_refreshes_mid_migration", 1);
+        st.check_state("S1_precheck_after_metadata_refresh", &migs, &none, &mut rng).await;
+    }
     // S2: some sources go through PRECHECK and sit in the blocking window
     let mut pre: BTreeMap<String, bool> = BTreeMap::new();
     for m in migs.iter() {
@@ -355,6 +361,10 @@ pub async fn run_scenario(rep: &mut Report, sub_seed: u64, table: Arc<Vec<Vec<u8
         }
     }
     st.check_state("S3_preswitch_done", &migs, &none, &mut rng).await;
+    if refresh_at == 3 && sc.refresh().await.is_ok() {
+        st.rep.count("metadata_refreshes_mid_migration", 1);
+        st.check_state("S3_preswitch_done_after_metadata_refresh", &migs, &none, &mut rng).await;
+    }
     // S4: FINALSWITCH for a subset
     let mut fin: BTreeMap<String, bool> = BTreeMap::new();
     for m in migs.iter() {
@@ -373,6 +383,10 @@ pub async fn run_scenario(rep: &mut Report, sub_seed: u64, table: Arc<Vec<Vec<u8
         }
     }
     st.check_state("S4_some_switch_committed", &migs, &none, &mut rng).await;
+    if (refresh_at == 4 || refresh_at == 0) && sc.refresh().await.is_ok() {
+        st.rep.count("metadata_refreshes_mid_migration", 1);
+        st.check_state("S4_some_switch_committed_after_metadata_refresh", &migs, &none, &mut rng).await;
+    }
     // S5: all through, broker commits
     sc.open_all_gates();
     let mut rounds = 0;
@@ -466,6 +480,7 @@ pub fn run(rep: &mut Report) {
     crate::c02::run_sharded(rep, hb, 16, move |local, sub, rt| {
         crate::run_guarded!(rt, local, "C14", sub, 1_000_000u64, run_handbuilt(local, sub ^ 0x5151, t2.clone()));
     });
+    rep.floor("metadata_refreshes_mid_migration", 10);
     rep.floor("scenarios_completed", if thorough { 300 } else { 30 });
     rep.floor("topology_replies_checked", 500);
     rep.floor("tagged_slots_compared", 100_000);
